@@ -14,8 +14,13 @@ RULE = ("cases = (version, call history, beta, log_e_nu) through the real Taus.t
         "angles at/below/above the axis ends, non-positive entries of version 1), malformed (energies outside [6,12]); non-trivial = "
         "distinct (version, beta, log_e_nu) with an interpolated (not clamped) result")
 ASSUMPTIONS = ["scipy RegularGridInterpolator (linear) is modelled by Model.Interp.bilinear; the correspondence is what checks that"]
-regen = regen_tables
 FLOOR = float(np.finfo(np.float32).eps)
+
+
+def regen():
+    """the tables (Gen/Tab*.lean) and the source tie: Gen/Src/C05.lean is `Taus.tau_exit_prob` as the working tree has it now"""
+    import srctie
+    return {**regen_tables(), **srctie.regen("C05")}
 
 
 def raw_pexit(version):
@@ -58,6 +63,8 @@ def run(ctx: Ctx):
         P = fresh.tau_exit_prob(b, le)
         if not (np.array_equal(b, b0) and np.array_equal(le, le0)):
             ctx.violation("Taus.tau_exit_prob", "mutates-input", "input array modified", {"version": v})
+        import tautie
+        tautie.compare_exit_prob(ctx, fresh, raw, np.roll(b, 8), np.roll(le, 8), np.roll(P, 8))   # the 8 axis-end cases first
         out = run_driver_sharded([f"pexit {v} 0 {f2h(b[i])} {f2h(le[i])}" for i in range(N)])
         for i, o in enumerate(out):
             case = {"version": v, "beta": float(b[i]), "log_e_nu": float(le[i]), "pexit": float(P[i])}
